@@ -33,7 +33,7 @@ ASSUMPTIONS = [
 
 SCHEMES = ["EF", "RK2", "RK4"]
 FIELDS = ["const", "shear", "rot", "saddle", "conv", "tlin", "rotramp", "xt"]
-METRICS = [dict(dx=1.0), dict(dx=100.0), dict(dx=1600.0), dict(dx=800.0, dy=500.0), dict(dx=400.0, metric="cellwise")]
+METRICS = [dict(dx=1.0), dict(dx=100.0), dict(dx=1600.0), dict(dx=800.0, dy=500.0), dict(dx=400.0, metric="cellwise"), dict(dx=200.0, tall=True)]
 XC, YC = 20.0, 15.0
 S0 = world.tosec("2020-01-01T00:00:00")
 
@@ -67,10 +67,10 @@ def cases(tier, seed):
     return out
 
 
-def params(field, disp, dt):
+def params(field, disp, dt, tall=False):
     """Field parameters giving a per-step displacement of about `disp` cells near the start lattice (radius ~4 cells)."""
     r = disp / dt  # grid units per second
-    p = dict(xc=XC, yc=YC)
+    p = dict(xc=XC - (8.0 if tall else 0.0), yc=YC + (25.0 if tall else 0.0))
     if field == "const":
         p.update(a=r, b=-0.5 * r)
     elif field == "shear":
@@ -118,6 +118,8 @@ def build(scheme, field, p, metric, dt, starts):
     mods["state"] = State()
     g = dict(imax=40, jmax=30)
     g.update(metric)
+    if g.pop("tall", False):  # more rows than columns; the start lattice lies north of y = xmax
+        g.update(imax=24, jmax=60)
     mods["grid"] = plugin("agrid").Grid(modules=mods, **g)
     L = metric["dx"]
     mods["forcing"] = plugin("aforce").Forcing(mods, field=field, params=dict(p, L=L))
@@ -174,8 +176,10 @@ def check_step(scheme, queries, X0, Y0, X1, Y1, dx, dy, dt, fx):
 def run_trace(case):
     scheme, field, dt = case["scheme"], case["field"], case["dt"]
     metric = METRICS[case["metric"]]
-    p = params(field, case["disp"], dt)
-    mods = build(scheme, field, p, metric, dt, STARTS)
+    tall = bool(metric.get("tall"))
+    p = params(field, case["disp"], dt, tall)
+    starts = [(x - 8.0, y + 25.0) for x, y in STARTS] if tall else STARTS
+    mods = build(scheme, field, p, metric, dt, starts)
     st, tk, fo, tr, g = mods["state"], mods["time"], mods["forcing"], mods["tracker"], mods["grid"]
     n = 0
     for k in range(case["steps"]):
